@@ -109,7 +109,8 @@ def run_case(case, ctx, st):
     try:
         est.fit(X)
     except Exception as e:
-        ctx.violation("fit-completes", f"douglas-fit-raises/{type(e).__name__}", observed={"exc": repr(e)[:300], "params": p}, expected="fit returns")
+        # whether fit completes is C04 / C17's business; C15 speaks about the fitted model
+        ctx.count("fit_raised:" + type(e).__name__)
         return
     used = [f for f in range(d) if mask is None or mask[f]]
     if n_cuts >= 2:
